@@ -32,7 +32,7 @@ RULE = (
     "N in {none,1,2} (quick: V=3,N=2 only to T=2), hyp laid out 1-D, (T,N), (N,T) and 3-D with an extra "
     "dimension E in {1,2} in all three positions of T, every legal dim in both spellings, eos in {None, each "
     "token}, seed-valued logits, functional and module alternating. p) packed logits: every length pattern in "
-    "{1..T}^N, N,T<=3, enforce_sorted both, dims 0,1,-1,-2, all hyp for N=1 (and N=2,T<=2; thorough N=2,T=3) "
+    "{1..T}^N, N,T<=3, enforce_sorted both plus hand-built packings whose sorted_indices break length ties in reverse batch order, dims 0,1,-1,-2, all hyp for N=1 (and N=2,T<=2; thorough N=2,T=3) "
     "else a menu of 4 cyclic contents with OOV on both sides. b) RandomWalk over a history-coded table LM "
     "(per-batch-row tables, un-normalised seed-valued logits): V in {2,3}, max_iters 1..3 (thorough 4), eos in "
     "{None, each}, batch_size in {None,1,2}; torch.multinomial is a choice point and the WHOLE tree is explored; "
@@ -281,12 +281,25 @@ def _p_unit(ctx, u, tier, seed, only=None):
     ci = 0
     for lens in patterns:
         descending = all(lens[i] >= lens[i + 1] for i in range(N - 1))
-        for enforce_sorted in (True, False):
-            if enforce_sorted and not descending:
+        for enforce_sorted in (True, False, "reversed-ties"):
+            if enforce_sorted is True and not descending:
                 continue
             if only is not None and only["enforce_sorted"] != enforce_sorted:
                 continue
-            ps = torch.nn.utils.rnn.pack_padded_sequence(L, torch.tensor(lens), enforce_sorted=enforce_sorted)
+            if enforce_sorted == "reversed-ties":
+                # a legal hand-built packing whose sorted_indices break length ties in reverse batch order
+                # (e.g. a collate function that sorts ascending and flips); round-trips through pad_packed_sequence
+                if len(set(lens)) == len(lens):
+                    continue
+                perm = sorted(range(N), key=lambda b: (-lens[b], -b))
+                sidx = torch.tensor(perm)
+                base = torch.nn.utils.rnn.pack_padded_sequence(
+                    L[:, sidx], torch.tensor([lens[b] for b in perm]), enforce_sorted=True)
+                uidx = torch.empty(N, dtype=torch.long)
+                uidx[sidx] = torch.arange(N)
+                ps = torch.nn.utils.rnn.PackedSequence(base.data, base.batch_sizes, sidx, uidx)
+            else:
+                ps = torch.nn.utils.rnn.pack_padded_sequence(L, torch.tensor(lens), enforce_sorted=enforce_sorted)
             for content in contents:
                 ci += 1
                 H = torch.tensor(content, dtype=torch.long)  # (N,T)
